@@ -29,6 +29,9 @@ structure Cfg where
   ageOld : Bool     -- the pre-existing copy's mtime is at least BlobSigningTTL in the past
   pop : POp
   top : TOp
+  /-- WriteBlock takes the flock of the file it is about to replace (/verif/fixes/F4.patch); `false`
+  is the code as it stands -/
+  patched : Bool := false
 deriving DecidableEq, Repr
 
 inductive Ino | a | b deriving DecidableEq, Repr
@@ -38,7 +41,7 @@ inductive Thr | p | t deriving DecidableEq, Repr
 inductive PPC
   | cStat | cLock | cOpen | cRead
   | tOpen | tLock | tFlock | tChtimes
-  | wMkdir | wTemp | wLock | wCopy | wClose | wChtimes | wRename
+  | wMkdir | wTemp | wLock | wCopy | wClose | wChtimes | wOpenOld | wFlockOld | wRename
   | done
 deriving DecidableEq, Repr
 
@@ -169,10 +172,19 @@ def stepP (s0 : St) : St :=
     if s.mutexFree then { s.takeMutex .p with pcP := .wCopy } else s.blockP
   | .wCopy => { s with pcP := .wClose }         -- io.Copy
   | .wClose => { s with pcP := .wChtimes }      -- tmpfile.Close
-  | .wChtimes => { s with pcP := .wRename }     -- os.Chtimes(tmp)
+  | .wChtimes =>                                -- os.Chtimes(tmp)
+    if s.cfg.patched then { s with pcP := .wOpenOld } else { s with pcP := .wRename }
+  | .wOpenOld =>                                -- (patched) v.os.OpenFile(bpath): the file about to be replaced
+    match s.blk with
+    | some i => { s with pcP := .wFlockOld, fdP := some i }
+    | none => { s with pcP := .wRename }
+  | .wFlockOld =>                               -- (patched) v.lockfile(oldf)
+    match s.fdP with
+    | some i => if (s.flock i).isNone then { s.setFlock i (some .p) with pcP := .wRename } else s.blockP
+    | none => { s with pcP := .wRename }
   | .wRename =>                                 -- v.os.Rename(tmp, p): replaces whatever is linked at p
     let s1 := if s.locA = .blk then { s with locA := .gone } else s
-    { s1.dropMutex with pcP := .done, locB := .blk, resP := .okWrite }
+    { (s1.dropFlocks .p).dropMutex with pcP := .done, locB := .blk, fdP := none, resP := .okWrite }
   | .done => s0
 
 /-- Trash's return: unlockfile, Close, unlock -/
@@ -235,6 +247,7 @@ def labelP : PPC → String
   | .tChtimes => "Touch:os.Chtimes"
   | .wMkdir => "WriteBlock:os.MkdirAll" | .wTemp => "WriteBlock:v.os.TempFile" | .wLock => "WriteBlock:v.lock"
   | .wCopy => "WriteBlock:io.Copy" | .wClose => "WriteBlock:tmpfile.Close" | .wChtimes => "WriteBlock:os.Chtimes"
+  | .wOpenOld => "WriteBlock:v.os.OpenFile" | .wFlockOld => "WriteBlock:v.lockfile"
   | .wRename => "WriteBlock:v.os.Rename" | .done => "-"
 
 def labelT : TPC → String
